@@ -27,6 +27,8 @@ def _expand(args):
     rng = random.Random(seed)
     try:
         P = syntax.Program(_G["table"], beh, rng)
+    except syntax.Skip:
+        return {"skip": True}
     except Exception as e:      # pragma: no cover - expander bug
         return {"error": repr(e), "beh": beh}
     out = []
@@ -53,6 +55,11 @@ def expand_all(table, behs, seed, layouts):
     return res
 
 
+def drop_skipped(behs, ex):
+    keep = [(b, e) for b, e in zip(behs, ex) if not e.get("skip")]
+    return [b for b, _ in keep], [e for _, e in keep]
+
+
 def slot_of(path):
     last = path.split(".")[-1]
     return re.sub(r"\[\d+\]$", "", last)
@@ -66,6 +73,7 @@ def parent_slot(path):
 def run_programs(check, wp, family, behs, table, seed, layouts, vers=None):
     """Expands, renders and parses every derivation; yields (meta, result) pairs."""
     ex = expand_all(table, behs, seed, layouts)
+    behs, ex = drop_skipped(behs, ex)
     vers = vers or VERS[family][:1]
     tasks, metas = [], []
     for i, (b, e) in enumerate(zip(behs, ex)):
